@@ -272,3 +272,62 @@ def sequence_items(pt, rng, n):
                 return e
             it = Item("sequence", rng.choice(["app", "sig"]), v, rand_opts(rng, v), {"names": names, "step": step, "chosen": chosen})
             yield _compile(pt, it, make)
+
+
+def tail_items(pt, rng, n):
+    """Routines whose *last* statement is a conditional with arms that leave the routine and arms that do not, in every order
+    (Cond / If-Else / ElseIf chains; Return, Approve, Reject, Err as the leaving statement), in void subroutines, value-returning
+    subroutines and the main routine, with another subroutine placed behind them: control must never run off a routine's end."""
+    I, B = pt.Int, pt.Bytes
+    for i in range(n):
+        reset_globals()
+        v = rng.choice([4, 5, 6, 7, 8, 9, 10])
+        narms = rng.choice([2, 2, 3, 4])
+        leaving = [rng.random() < .5 for _ in range(narms)]
+        if all(leaving) or not any(leaving):
+            leaving[rng.randrange(narms)] = not leaving[0]
+        form = rng.choice(["cond", "cond", "ifelse", "elseif"])
+        where = rng.choice(["void_sub", "void_sub", "value_sub", "main"])
+        exit_kind = rng.choice(["return", "return", "approve", "reject", "err"])
+        arg = pt.Btoi(pt.Txn.application_args[0]) if True else None
+
+        def make(leaving=leaving, form=form, where=where, exit_kind=exit_kind, narms=narms):
+            def leave(val):
+                if exit_kind == "return":
+                    return pt.Return(val) if val is not None else pt.Return()
+                return {"approve": pt.Approve(), "reject": pt.Reject(), "err": pt.Err()}[exit_kind]
+
+            def stay(j):
+                return pt.App.globalPut(B("k%d" % j), I(j))
+
+            def tail(val):
+                arms = [leave(val) if leaving[j] else stay(j) for j in range(narms)]
+                cs = [pt.Btoi(pt.Txn.application_args[0]) == I(j) for j in range(narms)]
+                if form == "cond":
+                    return pt.Cond(*[[cs[j] if j < narms - 1 else I(1), arms[j]] for j in range(narms)])
+                if form == "ifelse" or narms == 2:
+                    return pt.If(cs[0]).Then(arms[0]).Else(arms[1] if narms == 2 else pt.Seq(arms[1]))
+                e = pt.If(cs[0]).Then(arms[0])
+                for j in range(1, narms - 1):
+                    e = e.ElseIf(cs[j]).Then(arms[j])
+                return e.Else(arms[-1])
+
+            @pt.Subroutine(pt.TealType.uint64)
+            def behind(x):
+                return x + I(1)
+            if where == "void_sub":
+                def body():
+                    return pt.Seq(pt.App.globalPut(B("e"), I(1)), tail(None))
+                body.__name__ = "tailed"
+                f = pt.Subroutine(pt.TealType.none)(body)
+                return pt.Seq(f(), pt.Pop(behind(I(1))), I(1))
+            if where == "value_sub":
+                def body2():
+                    # the staying arms fall through to the value after the conditional
+                    return pt.Seq(pt.App.globalPut(B("e"), I(1)), tail(I(7)), I(9))
+                body2.__name__ = "tailed"
+                f = pt.Subroutine(pt.TealType.uint64)(body2)
+                return pt.Seq(pt.Pop(f()), pt.Pop(behind(I(1))), I(1))
+            return pt.Seq(pt.Pop(behind(I(1))), tail(I(1)), I(1))
+        it = Item("tail", "app", v, rand_opts(rng, v), {"form": form, "where": where, "exit": exit_kind, "leaving": leaving})
+        yield _compile(pt, it, make)
